@@ -54,7 +54,7 @@ Record entry := mkE {
   e_ls : Z;            (* last_seen, kernel nanoseconds *)
   e_rev : key;         (* nat_rev_key; meaningful for KFwd only *)
   e_dsr : bool;        (* FlagNATFwdDsr *)
-  e_rstts : bool;      (* rst_seen timestamp field is non-zero *)
+  e_rstts : Z;         (* rst_seen: kernel time of the last RST, 0 = none (calico_ct_value.rst_seen) *)
   e_a : leg; e_b : leg }.
 
 Definition with_ls (e : entry) (t : Z) : entry :=
@@ -71,6 +71,8 @@ Definition established (e : entry) : bool :=
 Definition rst_seen (e : entry) : bool := l_rst (e_a e) || l_rst (e_b e).
 Definition fins_seen (e : entry) : bool := l_fin (e_a e) && l_fin (e_b e).
 Definition fins_seen_dsr (e : entry) : bool := l_fin (e_a e) || l_fin (e_b e).
+(* entry.RSTSeen() != 0: only whether a RST time is recorded matters, never its value *)
+Definition rst_ts_set (e : entry) : bool := negb (Z.eqb (e_rstts e) 0).
 
 Definition sec : Z := 1000000000.
 
@@ -80,7 +82,7 @@ Definition entry_done (t : timeouts) (now : Z) (p : N) (e : entry) (finished_onl
     if rst_seen e && (age >? t_rst t) then Some 1%N
     else if ((e_dsr e && fins_seen_dsr e) || fins_seen e) && (finished_only || (age >? t_fins t)) then Some 2%N
     else if established e || e_dsr e then
-      if e_rstts e && (age >? 120 * sec) then Some 3%N
+      if rst_ts_set e && (age >? 120 * sec) then Some 3%N
       else if age >? t_est t then Some 4%N else None
     else if age >? t_syn t then Some 5%N else None
   else if N.eqb p 1 || N.eqb p 58 then (if age >? t_icmp t then Some 6%N else None)
@@ -89,6 +91,27 @@ Definition entry_done (t : timeouts) (now : Z) (p : N) (e : entry) (finished_onl
 
 Definition expired (t : timeouts) (now : Z) (p : N) (e : entry) : bool :=
   match entry_done t now p e false with Some _ => true | None => false end.
+(* EntryFinished: the connection is over from the applications' point of view (FINs seen counts at once) *)
+Definition finished (t : timeouts) (now : Z) (p : N) (e : entry) : bool :=
+  match entry_done t now p e true with Some _ => true | None => false end.
+
+(* timeouts/timeouts.go: DefaultTimeouts, and GetTimeouts for a configuration map whose values have already been
+   through time.ParseDuration (Some d = parsed, None = not a duration: the default stays; the "Auto" sysctl lookup
+   is not modelled).  Fields: 0 TCPSynSent 1 TCPEstablished 2 TCPFinsSeen 3 TCPResetSeen 4 UDPTimeout
+   5 GenericTimeout 6 ICMPTimeout; any other key (incl. CreationGracePeriod, unknown names) does not touch the table. *)
+Definition default_timeouts : timeouts :=
+  mkTm (20 * sec) (3600 * sec) (30 * sec) (40 * sec) (60 * sec) (600 * sec) (5 * sec).
+Fixpoint cfg_lookup (f : N) (cfg : list (N * option Z)) : option Z :=
+  match cfg with
+  | [] => None
+  | (f', v) :: r => if N.eqb f f' then (match v with Some d => Some d | None => cfg_lookup f r end) else cfg_lookup f r
+  end.
+Definition cfg_field (cfg : list (N * option Z)) (f : N) (d : Z) : Z :=
+  match cfg_lookup f cfg with Some v => v | None => d end.
+Definition get_timeouts (cfg : list (N * option Z)) : timeouts :=
+  let d := default_timeouts in
+  mkTm (cfg_field cfg 0 (t_syn d)) (cfg_field cfg 1 (t_est d)) (cfg_field cfg 2 (t_fins d)) (cfg_field cfg 3 (t_rst d))
+       (cfg_field cfg 4 (t_udp d)) (cfg_field cfg 5 (t_gen d)) (cfg_field cfg 6 (t_icmp d)).
 
 (* ---------------------------------------------------------------- state *)
 
